@@ -512,9 +512,15 @@ impl<P: ProcessRun> Run<'_, P> {
         metrics: &mut RunMetrics,
     ) -> Result<(), Failed> {
         for uri in task.tal.uris() {
-            let cert = match self.load_ta(uri, task.tal.info())? {
-                Some(cert) => cert,
-                _ => continue,
+            let cert = match self.load_ta(uri, task.tal.info()) {
+                Ok(Some(cert)) => cert,
+                Ok(None) => continue,
+                Err(Failed) => {
+                    // Without this, the run would carry on without the
+                    // TAL and end successfully with partial data.
+                    self.run_failed(RunFailed::fatal());
+                    return Err(Failed)
+                }
             };
             if cert.subject_public_key_info() != task.tal.key_info() {
                 warn!(
@@ -539,7 +545,10 @@ impl<P: ProcessRun> Run<'_, P> {
 
             match self.processor.process_ta(
                 task.tal, uri, &cert, cert.tal
-            )? {
+            ).map_err(|err| {
+                self.run_failed(RunFailed::fatal());
+                err
+            })? {
                 Some(processor) => {
                     return self.process_ca_task(
                         CaTask {
